@@ -5,7 +5,7 @@ import AiocoapModel.Blockwise.RefServer
 `C05 R <payload> <szx0> <maxPayload> <hint1> <hint2> <resp>*`
     the client machine against a given response sequence (`runClient`);
     hint1 / hint2 = `-` | `<szx>`: the size exponent of an application-preset Block1 / Block2 option
-    `(0, False, szx)` in the request handed to the API (a Block1 hint is `out-of-model`);
+    `(0, False, szx)` in the request handed to the API;
     szx0 = 7 is a remote that does BERT (`maximum_block_size_exp` 7);
     resp = `<code>:<block1>:<block2>:<etag>:<payload>`, block = `-` | `<num>.<0|1>.<szx>`,
     etag = `n` (absent) | `e<hex>`; payloads are hex (`-` = empty)
@@ -104,8 +104,8 @@ def handle (args : List String) : String :=
     match hexToBytes payload, szx0.toNat?, maxPayload.toNat?, parseHint hint1, parseHint hint2,
           resps.mapM parseResp with
     | some payload, some szx0, some maxPayload, some hint1, some hint2, some resps =>
-      if szx0 ≥ 8 || hint1.isSome || hintBad hint2 || resps.any respBad then "out-of-model" else
-      let res := runClient { payload, szx0, maxPayload, hint2 } resps
+      if szx0 ≥ 8 || hintBad hint1 || hintBad hint2 || resps.any respBad then "out-of-model" else
+      let res := runClient { payload, szx0, maxPayload, hint2, hint1 } resps
       " ".intercalate (res.1.map showReq) ++ " | " ++ showOutcome res.2
     | _, _, _, _, _, _ => "bad-op"
   | "I" :: payload :: szx0 :: maxPayload :: hint1 :: hint2 :: rep :: etag :: code :: choices =>
@@ -113,9 +113,9 @@ def handle (args : List String) : String :=
     | some payload, some szx0, some maxPayload, some hint1, some hint2 =>
     (match hexToBytes rep, parseEtag etag, code.toNat?, choices.mapM parseChoice with
     | some rep, some etag, some code, some choices =>
-      if szx0 ≥ 8 || hint1.isSome || hintBad hint2 || choices.any (fun c => c.szx ≥ 7)
+      if szx0 ≥ 8 || hintBad hint1 || hintBad hint2 || choices.any (fun c => c.szx ≥ 7)
       then "out-of-model" else
-      let run := transfer { payload, szx0, maxPayload, hint2 } (Srv.init rep etag code) choices
+      let run := transfer { payload, szx0, maxPayload, hint2, hint1 } (Srv.init rep etag code) choices
       " ".intercalate (run.reqs.map showReq) ++ " | " ++
       " ".intercalate (run.resps.map showResp) ++ " | " ++ showOutcome run.outcome ++ " | " ++
       (match run.srv.recorded with | none => "n" | some b => "r" ++ (if b.isEmpty then "" else bytesToHex b))
